@@ -482,7 +482,7 @@ def g_hist(rng, passed=False):
     use_global = rng.random() < 0.25
     gtyp = rng.choice(["list", "dict", "set"])
     shared_default = {t: rng.choice(v) for t, v in HIST_DEFAULTS.items()}  # same default text in several flows/parameters
-    flows, types = [], {}
+    flows, types, rtype = [], {}, {}
     for nm in names:
         params, ty = [], {}
         if rng.random() < 0.6:
@@ -511,8 +511,10 @@ def g_hist(rng, passed=False):
 
         def arg(pn):
             t = ty[pn]
-            if passed and rng.random() < 0.6:
-                cands = [v for v, vt in scope_ty.items() if vt == t or (t != "scalar" and vt == "ret")]
+            # (variables are passed for flat container types only: a cell of the heap model holds a tree, objects nested
+            #  inside a passed dict/list that are mutated through a path are outside it — see Models/BindHeap.lean)
+            if passed and t not in ("nested", "dictl") and rng.random() < 0.6:
+                cands = [v for v, vt in scope_ty.items() if vt == t or vt == "ret:" + t]
                 if cands:
                     return {"var": rng.choice(cands)}
             if t == "scalar":
@@ -545,7 +547,7 @@ def g_hist(rng, passed=False):
             pn = rng.choice([p["name"] for p in f["params"]])
             if ty[pn] != "scalar":  # re-assign a parameter with a fresh literal, then (maybe) mutate it
                 body.append({"op": "assign", "key": pn, "e": lit(rng.choice(HIST_DEFAULTS[ty[pn]]))})
-        cont = [v for v, t in ty.items() if t != "scalar"]
+        cont = [v for v, t in ty.items() if t != "scalar" and not t.startswith("ret")]
         scal = [v for v, t in ty.items() if t == "scalar"]
         for _ in range(rng.choice([1, 1, 2, 3]) if cont else 0):
             v = rng.choice(cont)
@@ -557,7 +559,7 @@ def g_hist(rng, passed=False):
                 has_ret = any(s_["op"] == "ret" for s_ in by_name[tgt]["body"])
                 body.append(call(tgt, "await", ty, ret="x" if has_ret else None))
                 if has_ret:
-                    ty["x"] = "ret"
+                    ty["x"] = "ret:" + rtype[tgt]
         allv = [v for v in ty if v not in ("z",)]
         body.append({"op": "send", "name": "Out" + f["name"].capitalize(), "args": [[v, {"var": v}] for v in allv]})
         if forms[f["name"]] == "await":
@@ -565,11 +567,16 @@ def g_hist(rng, passed=False):
                 r = rng.random()
                 rcont = [v for v in cont if passed or v != "g"]  # a returned global stays shared with everybody (passed across)
                 if rcont and r < 0.65:
-                    e = {"var": rng.choice(rcont)}
+                    rv_ = rng.choice(rcont)
+                    e = {"var": rv_}
+                    rtype[f["name"]] = ty[rv_]
                 elif r < 0.8 and scal:
                     e = {"l2": [{"var": rng.choice(scal)}, lit(rng.choice(HIST_SCALARS))]}
+                    rtype[f["name"]] = "list"
                 else:
-                    e = lit(rng.choice(rng.choice(list(HIST_DEFAULTS.values()))))
+                    rt_ = rng.choice(list(HIST_DEFAULTS))
+                    e = lit(rng.choice(HIST_DEFAULTS[rt_]))
+                    rtype[f["name"]] = rt_
                 body.append({"op": "ret", "e": e})
         else:
             body.append({"op": "block"})
@@ -599,10 +606,10 @@ def g_hist(rng, passed=False):
             nret += 1
             rv = "x%d" % nret
             main.append(call(tgt, form, ty, ret=rv))
-            ty[rv] = "ret"
+            ty[rv] = "ret:" + rtype[tgt]
         else:
             main.append(call(tgt, form, ty))
-        mine = [v for v, t in ty.items() if t not in ("scalar", "ret") and (v != "g" or True)]
+        mine = [v for v, t in ty.items() if t != "scalar" and not t.startswith("ret")]
         if mine and rng.random() < 0.35:
             v = rng.choice(mine)
             main.extend(g_mut(rng, v, ty[v], [x for x, t in ty.items() if t == "scalar"]))
@@ -905,6 +912,19 @@ def run_prog(src, events):
         return obs
     out = []
     st.outgoing_events = _SnapList()
+    entries = []
+    orig_start = sm._start_flow
+
+    def start_flow_spy(state, flow_state, event_arguments):
+        # what the callee sees when it starts: its context right after `_start_flow` (values copied at that moment)
+        orig_start(state, flow_state, event_arguments)
+        if flow_state.flow_id != "main":
+            try:
+                entries.append([flow_state.flow_id, _items(copy.deepcopy(_visible(flow_state.context)))])
+            except Exception:  # noqa
+                entries.append([flow_state.flow_id, [["<uncopyable>", None]]])
+
+    sm._start_flow = start_flow_spy
 
     def on_alarm(signum, frame):
         raise _Timeout()
@@ -926,8 +946,10 @@ def run_prog(src, events):
     finally:
         signal.alarm(0)
         signal.signal(signal.SIGALRM, old_handler)
+        sm._start_flow = orig_start
         if old_left:
             signal.alarm(max(1, old_left - 1))
+    obs["entries"] = entries
     obs["out"] = [_clean_event(e) for e in out]
     obs["insts"] = [[fs.flow_id, _items(_visible(fs.context))] for fs in st.flow_states.values()]
     obs["globals"] = _items(st.context)
@@ -984,10 +1006,13 @@ def model_requests(case, obs):
     if case["kind"] == "fn":
         return [{"m": "C08.bind", "params": case["params"], "rets": case["rets"], "ev": case["ev"], "main": False, "asis": not REPAIRED}]
     if case["kind"] == "e2e" and case.get("mode", "").startswith("hist"):
-        return []
+        # in-place mutation: only the heap interpreter models it
+        p = case["prog"]
+        return [{"m": "C08.hexec", "flows": p["flows"], "main": p["main"], "fuel": _fuel(p)}]
     if case["kind"] == "e2e":
         p = case["prog"]
-        return [{"m": "C08.exec", "flows": p["flows"], "main": p["main"], "fuel": _fuel(p)}]
+        return [{"m": "C08.exec", "flows": p["flows"], "main": p["main"], "fuel": _fuel(p)},
+                {"m": "C08.hexec", "flows": p["flows"], "main": p["main"], "fuel": _fuel(p)}]
     return []
 
 
@@ -1019,7 +1044,19 @@ def compare(case, obs, mouts):
         if fi != fm:
             return f"finished_event arguments: impl {fi} model {fm}"
         return None
-    # e2e
+    # e2e: every model output (value interpreter `exec`, heap interpreter `hexec`) against the real run
+    for which, m in zip(("exec", "hexec") if len(mouts) == 2 else ("hexec",), mouts):
+        d = _compare_e2e(obs, m)
+        if d:
+            return which + ": " + d
+    return None
+
+
+def _canon_items(items):
+    return [[k, canon_j(v)] for k, v in items if not (k.startswith("_") and not k.startswith("_global_") and k != "_return_value")]
+
+
+def _compare_e2e(obs, m):
     oc = m["outcome"]
     if oc == "outOfFuel":
         return "model ran out of fuel (harness budget too small)"
@@ -1029,18 +1066,24 @@ def compare(case, obs, mouts):
     if "exc" in obs:
         return f"impl raised {obs['exc']}, model outcome {oc}"
     if oc == "failed":
-        return None  # caller failed on a missing return value: the failure path (main restart) is outside the fragment
-    mo = [[n, {k: v for k, v in args}] for n, args in m["out"]]
+        return None  # caller failed on a missing return value / a raising method call: the failure path (main restart) is outside the fragment
+    mo = [[n, {k: canon_j(v) for k, v in args}] for n, args in m["out"]]
     io_ = [[n, {k: v for k, v in _strip_uids(list(a.items()))}] for n, a in obs["out"]]
     mo = [[n, {k: v for k, v in _strip_uids(list(a.items()))}] for n, a in mo]
     if io_ != mo:
         return f"emitted events differ: impl {io_} model {mo}"
-    mi = [[fid, _strip_uids(ctx)] for _, fid, ctx in m["insts"]]
+    mi = [[fid, _strip_uids(_canon_items(ctx))] for _, fid, ctx in m["insts"]]
     ii = [[fid, _strip_uids(ctx)] for fid, ctx in obs["insts"]]
     if ii != mi:
         return f"instance contexts differ: impl {ii} model {mi}"
-    if obs["globals"] != m["globals"]:
+    if obs["globals"] != _canon_items(m["globals"]):
         return f"global context differs: impl {obs['globals']} model {m['globals']}"
+    if "entries" in m:
+        # per call: the callee's ENTRY context (all parameter variables and return members, no `$0..` keys, no leftovers)
+        me = [[fid, _strip_uids(_canon_items(ctx))] for _, fid, ctx in m["entries"]]
+        ie = [[fid, _strip_uids(ctx)] for fid, ctx in obs.get("entries", [])]
+        if ie != me:
+            return f"callee entry contexts differ: impl {ie} model {me}"
     return None
 
 
